@@ -134,8 +134,9 @@ SenderAccepts(n, first) ==
 
 ReceiverAccepts(f) == f.wlen <= Max
 
-\* the typed layer reserves the largest overhead so that every chunk fits
-Chunk == IF "ChunkIgnoresOverhead" \in Bug THEN Max ELSE Max - Tag - IVLen
+\* on a protected stream the typed layer reserves the largest overhead (tag and
+\* IV) so that every chunk fits
+Chunk == IF "ChunkIgnoresOverhead" \in Bug \/ ~enc THEN Max ELSE Max - Tag - IVLen
 
 \* bytes a typed write puts into the message
 EncLen(kind, n) == IF kind = "string" THEN n + 1 + (IF enc THEN 8 ELSE 0) ELSE n
